@@ -207,6 +207,7 @@ def correspondence(ctx):
                     if not op_equal(x.split(" stdout=")[0], y.split(" stdout=")[0]):
                         first = {"op_index": j, "op": m["ops"][j] if j < len(m["ops"]) else None, "impl": x, "model": y}
                         break
+            m["_disagreed"] = True
             ctx.mismatches.append({"family": "history", "case": lines[i][:2000], "first_difference": first, "impl": (a or "")[:300], "model": (b or "")[:300]})
         else:
             ctx.traces_validated += 1
@@ -293,14 +294,13 @@ def fresh_process_independence(ctx, deep):
     from concurrent.futures import ThreadPoolExecutor
     cand = [(m, a) for m, a in getattr(ctx, "hist_results", []) if a and "head" in m and not a.startswith("panic") and "HARNESS-FAILURE" not in a]
     # histories in which the model and the implementation disagreed first
-    bad_lines = set(mm["case"][:2000].split(" ", 1)[1] for mm in ctx.mismatches if mm.get("family") == "history")
-    cand.sort(key=lambda ma: 0 if ma[0]["line"][:1992] in bad_lines or ma[0]["line"] in bad_lines else 1)
+    cand.sort(key=lambda ma: 0 if ma[0].get("_disagreed") else 1)
     jobs = []
     for m, a in cand[:(160 if deep else 32)]:
         parts = a.rsplit(" stdout=", 1)[0].split(" | ")
         calls = [j for j, op in enumerate(m["ops"]) if op.split(" ")[0] not in UPDATES and j < len(parts)]
         calls = [j for j in calls if any(m["ops"][i].split(" ")[0] not in UPDATES for i in range(j))]     # something was called before
-        is_bad = m["line"][:1992] in bad_lines or m["line"] in bad_lines
+        is_bad = bool(m.get("_disagreed"))
         for j in (calls if is_bad else calls[-2:]):      # every call of a history on which model and implementation disagreed
             ops2 = [op for i, op in enumerate(m["ops"][:j]) if op.split(" ")[0] in UPDATES] + [m["ops"][j]]
             jobs.append((m, j, parts[j], "historyo" if False else "history", "%s %d %s" % (m["head"], len(ops2), " ".join(ops2)), len(ops2) - 1))
